@@ -116,6 +116,9 @@ func runOneKill(c killCase, tmpBase string, idx int) (sx.V, sx.V) {
 	}
 	// each Kill call must itself return only once the process is gone (when there was one)
 	bound := 9 * time.Second
+	if c.Behaviour == "frozen" && c.Proto == "netrpc" {
+		bound = 60 * time.Second // the quit request to a stopped net/rpc plugin ends with yamux's keep-alive (30 s + 10 s), then the force kill
+	}
 	okAll := true
 	var mu sync.Mutex
 	oneKill := func() {
